@@ -363,7 +363,7 @@ theorem li_stepLive (fc : FC) (hh : fc.held = false) (I : FI fc) (hl : LI fc.pa)
   | justify t j f b =>
     have I0 : FI { fc with pa := { fc.pa with sinkLog := [] } } :=
       ⟨wf_sinkLog I.wf [], chain_congr (pr := fc.pa) (pr' := { fc.pa with sinkLog := [] }) rfl rfl rfl (fun _ => rfl) I.chain,
-        I.nz, I.vin, fun i n hn => by
+        I.nz, fun i n hn => by
         have := I.w i n hn
         rw [this]
         exact (wsumFrom_congr fc.pa { fc.pa with sinkLog := [] } fc.balances i fc.votes 0 (fun _ _ => rfl)).symm⟩
